@@ -511,7 +511,7 @@ func init() {
 	vfRegister(&vfeng.Check{
 		ID:    "C10",
 		Level: "model_checking",
-		Rule: "client certificates signed by the role CA and by the operator CA carrying every corrupted address extension of the C11 catalogue (bit lengths 0..48, wrong families, 300 blocks, truncations, byte flips) on the refresh, certgen and profile routes from inside and outside: no panic; " +  "exhaustive products on the real handlers: (strength) 48 RSA (modulus bits x exponent) keys + P-224/256/384/521 + Ed25519 + DSA + X25519 + RSA-PSS OID x all six issuing paths in the encoding each path takes; (malformed) for each valid seed (SSH key line, PEM/base64url PKIX key, session cookie, OIDC code, access token, CLI token, U2F/WebAuthn JSON bodies): every truncation length, three substitutions per byte position, every DER length octet +-1, SSH algorithm-tag x blob cross product and wire-length fields, delivered to every route that parses that input; oracle: signed => strong key, weak/unknown => 4xx, no recovered panic",
+		Rule: "18 truncated / odd Authorization header values x every service route x {GET,POST}: no panic; client certificates signed by the role CA and by the operator CA carrying every corrupted address extension of the C11 catalogue (bit lengths 0..48, wrong families, 300 blocks, truncations, byte flips) on the refresh, certgen and profile routes from inside and outside: no panic; " +  "exhaustive products on the real handlers: (strength) 48 RSA (modulus bits x exponent) keys + P-224/256/384/521 + Ed25519 + DSA + X25519 + RSA-PSS OID x all six issuing paths in the encoding each path takes; (malformed) for each valid seed (SSH key line, PEM/base64url PKIX key, session cookie, OIDC code, access token, CLI token, U2F/WebAuthn JSON bodies): every truncation length, three substitutions per byte position, every DER length octet +-1, SSH algorithm-tag x blob cross product and wire-length fields, delivered to every route that parses that input; oracle: signed => strong key, weak/unknown => 4xx, no recovered panic",
 		Assumptions: []string{"RSA public keys with chosen moduli stand for weak keys (the server never needs the private half)", "byte-level mutation is exhaustive for single positions with three substitute values; multi-byte corruptions are out of the bound"},
 		Shards: func(tier string) int { return 16 },
 		Run: func(c *vfeng.Ctx) {
@@ -533,6 +533,26 @@ func init() {
 						c.Violate(key, what, p)
 					} else {
 						c.Class(class, p)
+					}
+				}
+			}
+			// truncated / odd Authorization header values on every route of the service mux
+			if c.Shard == c.NShards-1 {
+				hdrs := []string{"Bearer", "Bearer ", "bearer", "Bearer\t", "Bearer  ", "Bearer a b", "BearerX", "Basic", "Basic ", "Basic  ", "Basic !!!", "Basic " + base64.StdEncoding.EncodeToString([]byte("nocolon")), "Basic " + base64.StdEncoding.EncodeToString([]byte(":")), "Basic " + base64.StdEncoding.EncodeToString([]byte("alice:")), " ", "Negotiate", "Digest username=", strings.Repeat("Bearer ", 2000)}
+				for _, rt := range w.routes {
+					for _, method := range []string{"GET", "POST"} {
+						for hi, h := range hdrs {
+							req := vfReq{Method: method, Path: c06PathFor(rt.Pattern), Form: url.Values{"x": {"y"}}}.Build()
+							req.Header["Authorization"] = []string{h}
+							resp := w.Do(req)
+							c.Eval(1)
+							p := c10Point{Part: "authorization-header", Path: rt.Pattern, Seed: method, Mut: fmt.Sprint(hi)}
+							if resp.Panic != nil {
+								c.Violate("C10|panic|authorization-header|"+rt.Name, fmt.Sprintf("%s %s with Authorization: %q: panic %v\n%s", method, rt.Pattern, c10Trim(h), resp.Panic, c10Trim(resp.PanicStack)), p)
+							} else {
+								c.Class(fmt.Sprintf("authorization-header|%d", resp.Code/100), p)
+							}
+						}
 					}
 				}
 			}
@@ -667,6 +687,21 @@ func init() {
 					}
 				}
 				return false, "unknown key"
+			}
+			if p.Part == "authorization-header" {
+				hdrs := []string{"Bearer", "Bearer ", "bearer", "Bearer\t", "Bearer  ", "Bearer a b", "BearerX", "Basic", "Basic ", "Basic  ", "Basic !!!", "Basic " + base64.StdEncoding.EncodeToString([]byte("nocolon")), "Basic " + base64.StdEncoding.EncodeToString([]byte(":")), "Basic " + base64.StdEncoding.EncodeToString([]byte("alice:")), " ", "Negotiate", "Digest username=", strings.Repeat("Bearer ", 2000)}
+				var hi int
+				fmt.Sscan(p.Mut, &hi)
+				if hi < 0 || hi >= len(hdrs) {
+					return false, "unknown header"
+				}
+				req := vfReq{Method: p.Seed, Path: c06PathFor(p.Path), Form: url.Values{"x": {"y"}}}.Build()
+				req.Header["Authorization"] = []string{hdrs[hi]}
+				resp := w.Do(req)
+				if resp.Panic != nil {
+					return true, fmt.Sprintf("C10|panic|authorization-header :: panic %v", resp.Panic)
+				}
+				return false, fmt.Sprintf("status %d", resp.Code)
 			}
 			if p.Part == "cert-extension" {
 				signer, name, _ := strings.Cut(p.Seed, ":")
